@@ -66,14 +66,19 @@ def _run(case, mirror, fee_obj=None):
         table[(t0, a)] = (bid * 1.37, ask * 1.37)
         other[a] = (bid * 0.61, ask * 0.61)
     dh = TimedDH(table, other)
-    b = q.SimulatedBroker(t0, q.SimulatedExchange(t0), dh, initial_funds=0.0,
-                          fee_model=fee_obj if fee_obj is not None else kit.fee_model(case['fee']))
+    first_model = fee_obj if fee_obj is not None else kit.fee_model(case['fee'])
+    if case.get('swap_fee'):
+        first_model = q.ZeroFeeModel() if case['swap_fee'] == 'zero' else q.PercentFeeModel(commission_pct=0.031, tax_pct=0.007)
+    b = q.SimulatedBroker(t0, q.SimulatedExchange(t0), dh, initial_funds=0.0, fee_model=first_model)
     pids = sorted(set(o[4] for o in orders))
     log = []
     for pid in pids:
         b.create_portfolio(pid)
         kit.tap(b.portfolios[pid], log, pid)
     by_id = {}
+    if case.get('swap_fee') and fee_obj is not None:
+        # the fee schedule configured on the broker changes before the fills: fills follow the broker's current model
+        b.fee_model = fee_obj
     for a, qty, bid, ask, pid, ocomm in orders:
         od = q.Order(t0, a, qty, commission=ocomm) if ocomm else q.Order(t0, a, qty)
         by_id[od.order_id] = (a, qty, bid, ask, pid)
@@ -158,6 +163,8 @@ def run_case(case):
     cls.append('fee_zero_model' if case['fee'] is None else ('fee_default' if case['fee'] == 'default' else (
         'fee_rate_positive' if rate > 0 else 'fee_rate_zero')))
     cls.append('orders_%d' % len(case['orders']))
+    if case.get('swap_fee'):
+        cls.append('fee_model_replaced_after_construction')
     if any(o.get('order_commission') for o in case['orders']):
         cls.append('order_with_commission_attribute')
     if len(set(o['asset'] for o in case['orders'])) < len(case['orders']):
@@ -207,7 +214,8 @@ def cases(draw):
         st.sampled_from([[0.001, 0.005], [0.002, 0.0], [0.0, 0.005], [1.0, 1.0], [0.0, 0.0]]),
         st.none(), st.just('default'),
     ))
-    return {'t_submit': [t0.year, t0.month, t0.day, t0.hour, t0.minute, t0.second],
+    swap = draw(st.sampled_from([None, None, None, 'zero', 'percent']))
+    return {'swap_fee': swap, 't_submit': [t0.year, t0.month, t0.day, t0.hour, t0.minute, t0.second],
             't_update': [t1.year, t1.month, t1.day, t1.hour, t1.minute, t1.second],
             'orders': orders, 'fee': fee}
 
